@@ -25,7 +25,7 @@ def run(ctx, res):
                 "connections (= connection-closed notifications in any order), late replies, clock advances, cancels, new operations, a second "
                 "close(). non-trivial = a scenario in which close() had to close at least one broker client or abort a bootstrap; distinct by content hash.")
     c07.run_corpus(ctx, res, ["c20-", "net-"], "c20", "C20")
-    c07.net_scenarios(ctx, res, ctx.scale(3000, 60000), "c20")
+    c07.net_scenarios(ctx, res, ctx.scale(3000, 200000), "c20")
 
 
 def search(ctx, res, broken):
